@@ -154,6 +154,25 @@ O('groupselectmax', 1, lambda e, s, kw: e.groupselectmax(s[0], 'a', 'c',
                                                          **kw), key='a')
 O('mergeduplicates', 1, lambda e, s, kw: e.mergeduplicates(s[0], 'a', **kw),
   key='a')
+# a `missing` marker that is an object of the caller's (not None, not an
+# interned constant): the table cells hold that very object, and rows that
+# went through a chunk file come back holding an equal copy of it
+_MARK = ('n/a', 0)
+
+
+def _mark(v):
+    # a good part of the cells becomes the marker object itself
+    if v is None or v == '' or v == 1 or v == 'x' or v == 2:
+        return _MARK
+    return v
+
+
+O('mergeduplicates-marker', 1,
+  lambda e, s, kw: e.mergeduplicates(e.convert(s[0], ('b', 'c'), _mark), 'a',
+                                     missing=_MARK, **kw), key='a')
+O('conflicts-marker', 1,
+  lambda e, s, kw: e.conflicts(e.convert(s[0], ('b', 'c'), _mark), 'a',
+                               missing=_MARK, **kw), key='a')
 O('merge', 2, lambda e, s, kw: e.merge(s[0], s[1], key='a', **kw),
   presorted=False)
 O('pivot', 1, lambda e, s, kw: e.pivot(s[0], 'a', 'b', 'c', _count, **kw),
